@@ -152,6 +152,14 @@ def check(an, rep, tier):
     rep.add('P-domain', 'grid.grid_prep_opts', 'rejects a of length 2 with b '
             'of length 3', 'ok' if raised else 'violation',
             '' if raised else 'inconsistent option lengths are not rejected')
+    I = interp.Interp(prog, {})
+    I.run_function(fn, {'a': LIST([FLOAT(), FLOAT(), FLOAT()]),
+                        'b': LIST([FLOAT(), FLOAT()])})
+    raised = any(x[1] == 'ValueError' for x in I.raises) and \
+        not I.entry_returns
+    rep.add('P-domain', 'grid.grid_prep_opts', 'rejects a of length 3 with b '
+            'of length 2', 'ok' if raised else 'violation',
+            '' if raised else 'inconsistent option lengths are not rejected')
     rep.floor('F-inverse', 2, 'round trips')
     rep.floor('F-endpoint', 4, 'endpoints')
     rep.floor('P-two-sided', 5, 'clamps')
